@@ -1,6 +1,6 @@
 #!/bin/bash
 # usage: tools/tryseed.sh <patch> <prop> [more props...]  : applies patch to /repo, runs the checks, reverts
-patch=$1; shift
+patch=$(realpath $1); shift
 git -C /repo apply "$patch" || { echo "patch does not apply"; exit 2; }
 for p in "$@"; do ./check $p 2>&1 | grep -E "^(VIOLATION|KNOWN|C[0-9]+ tier|  broken)" | cut -c1-300; done
 git -C /repo checkout -- .
